@@ -216,6 +216,14 @@ Definition universal (r : rule) : bool :=
   | KOwn => atom_name r   (* a well-formed own rule without a name has no prefix flag *)
   end.
 
+(* the catch-all test of bus_client_policy_optimize as it is in dbus 1.13.18, frozen by hand: the known finding F3 is
+   about exactly this test (a different unsound test would be a new finding) *)
+Definition f3_condition (r : rule) : bool :=
+  match r_kind r with
+  | KOwn => atom_name r
+  | _ => atom_type r && atom_path r && atom_iface r && atom_member r && atom_error r && atom_name r
+  end.
+
 (* the same as a mask, to compare with the generated one *)
 Definition fixed_mask_send : catchall_mask := Build_catchall_mask true true true true true true true true true true false false.
 Definition fixed_mask_recv : catchall_mask := Build_catchall_mask true true true true true true false true true true true false.
